@@ -7,7 +7,6 @@ Nothing here imports PSyclone.  The mesh / function-space boilerplate follows
 vf.lfric.algorithm_program (which cannot express field arrays, derived types
 or unnamed invokes), the output format is the one vf.lfric.parse_dump reads.
 """
-import random
 
 # --------------------------------------------------------------------- kernels
 # name -> dict(module, type, space, args=[(role, access)], source)
@@ -215,7 +214,9 @@ contains
     ndf = px%vspace%get_ndf()
     nlayers = px%vspace%get_nlayers()
     px%data(:) = 0.0_r_def
-    do cell = 1, px%vspace%get_ncell()
+    ! (the stub infrastructure holds stencil sizes for the cells up to the
+    !  first halo level only; DoFs of other cells keep 0 = "unknown")
+    do cell = 1, min(px%vspace%get_ncell(), size(sizes))
       do k = 0, nlayers - 1
         do df = 1, ndf
           px%data(map(df, cell) + k) = real(sizes(cell), r_def)
@@ -302,7 +303,10 @@ INTS = {"n": 3, "nlayers": 5, "state%n": 2,
         # state_e is a decoy: the flattened name of state%e, other value
         "e1": 1, "e2": 2, "state%e": 2, "state_e": 1, "ea(1)": 1, "ea(2)": 2}
 EXTENT_PLAIN = ["e1", "e2"]
-EXTENT_LITERALS = ["1", "2", "2_i_def"]
+EXTENT_LITERALS = ["1", "2"]
+# a literal extent WITH a kind suffix makes PSyclone crash (ValueError in
+# int('2_i_def')): a refusal, so only a few programs try it
+EXTENT_LITERAL_KIND = "2_i_def"
 AUX_FIELDS = [("mult_w0", "W0"), ("ssz1", "W3"), ("ssz2", "W3")]
 # the three argument forms of a stencil extent that the pinned PSyclone
 # mishandles (found by this check), plus the invoke-label clash
@@ -548,7 +552,10 @@ def random_program(rnd, name="c24prog", ranks=1, ninvokes=None, style=None,
                     forms.add("stencil_extent")
                     if want_danger and not planted[0] and \
                             danger in ("extent_struct", "extent_array"):
-                        st = "state%e" if danger == "extent_struct" \
+                        # state%e: a variable called state_e exists (decoy,
+                        # other value); state%n: no state_n exists
+                        st = rnd.choice(["state%e", "state%n"]) \
+                            if danger == "extent_struct" \
                             else rnd.choice(["ea(1)", "ea(2)"])
                         tx = st if plain else _vary_case(rnd, st)
                         planted[0] = True
@@ -559,6 +566,9 @@ def random_program(rnd, name="c24prog", ranks=1, ninvokes=None, style=None,
                         st = tx = rnd.choice(EXTENT_PLAIN)
                     elif rnd.random() < 0.4:
                         st = tx = rnd.choice(EXTENT_LITERALS)
+                        if upper_lit:
+                            st = tx = EXTENT_LITERAL_KIND
+                            forms.add("stencil_extent_literal_with_kind")
                         forms.add("literal")
                     else:
                         st = rnd.choice(EXTENT_PLAIN)
